@@ -107,8 +107,8 @@ TEMPLATE = PRELUDE + '\n'.join('@@FN XObject_%s@@' % op for op in OPS) + r'''
 static void xv_havoc(void)
 {
     const XObject *a, *b; int i1, i2, i3, i4, i5; bool b1, b2, b3; double d1, d2; const XObject *c, *d;
-    g_lhs = a; g_rhs = b; g_alias = (a == b); g_tl = i1; g_tr = i2; g_bl = b1; g_br = b2; g_nl = d1; g_nr = d2; g_sl = i3; g_sr = i4;
-    g_ns_op = OP_none; g_ns_set = c; g_ns_other = d; g_ns_type = i5; g_ns_res = b3;
+    g_lhs = a; g_rhs = b; g_alias = (a == b); g_tl = i1; g_tr = i2; g_bl = XV_BOOL(b1); g_br = XV_BOOL(b2); g_nl = d1; g_nr = d2; g_sl = i3; g_sr = i4;
+    g_ns_op = OP_none; g_ns_set = c; g_ns_other = d; g_ns_type = i5; g_ns_res = XV_BOOL(b3);
 }
 ''' + '\n'.join('void h_%s(void) { xv_havoc(); XObject_%s(g_lhs, g_rhs, 0); }' % (op, op) for op in OPS)
 
